@@ -633,6 +633,13 @@ def rule_basic_epilogue(prog, fixture=False):
             if k[0] == "T" and k[1] in ferror_canons and k[2] is False and st == "F":
                 st = "T"
         return (z, st)
+    # an epilogue handed to a helper that receives the stream (finish_stream(stdout, ...)) is not followed
+    for n in main.walk():
+        if n.get("k") == "CallExpr" and n.get("fn") and prog.by_key.get(n["fn"]) and \
+                any((strip_all(a) or {}).get("n") == "stdout" for a in call_args(n)):
+            r.undecided.append("%s: main hands stdout to %s, which is expected to flush and test it; the typestate rule follows "
+                               "fflush/ferror calls in main only" % (main.loc(n), notpl(n.get("q") or "?")))
+            return r
     ps = PathStates(main, ("0?", "U"), elem_tf, edge_tf)
     k = 0
     for n in main.walk():
@@ -662,7 +669,7 @@ def rule_basic_epilogue(prog, fixture=False):
 
 # ---------------------------------------------------------------- R-C11-4
 def rule_status_not_overwritten(prog, fixture=False):
-    r = RuleResult("R-C11-4", "a status variable that a function returns is never overwritten inside a loop while it "
+    r = RuleResult("R-C11-6", "a status variable that a function returns is never overwritten inside a loop while it "
                    "may hold a failure: `ok = step()` in a loop is acceptable only where ok is known to be true (the "
                    "failure left the loop) - otherwise a later success hides an earlier failure and the command "
                    "exits 0 with incomplete output", floor=0)
@@ -778,7 +785,7 @@ def run(ctx):
 
 def _basic_status(basic):
     r = rule_status_not_overwritten(basic)
-    r.rule = "R-C11-4/basic"
+    r.rule = "R-C11-6/basic"
     return r
 
 
